@@ -4,4 +4,4 @@ Require Import ExtrOcamlBasic.
 Extraction Language OCaml.
 Extraction "../build/ocaml/C11/model.ml"
   rgn_or rgn_and rgn_sub rgn_empty rgn_create_rect rgn_is_empty rgn_offset rgn_count rgn_bbox
-  rgn_iter rgn_pop_rect rgn_mem sraClipRect sraClipRect2.
+  rgn_iter rgn_iter_machine rgn_pop_rect rgn_mem sraClipRect sraClipRect2.
